@@ -692,7 +692,6 @@ pub fn generate(seed: u64, base: &Cfg) -> Program
 }
 
 /// Used by the syscall-family generator for callee scripts.
-pub fn gen_plain_ops(g: &mut dyn GenOps, n: u64) -> Vec<Op> { g.plain_ops(n) }
 pub trait GenOps { fn plain_ops(&mut self, n: u64) -> Vec<Op>; fn rng(&mut self) -> &mut Rng; }
 impl<'a> GenOps for G<'a>
 {
